@@ -137,3 +137,7 @@ Fixpoint nd_from (t : list (Z * want)) (n : nd) (ops : list op) : bool :=
   end.
 
 Definition no_defect (ops : list op) : bool := nd_from [] nd_init ops.
+
+(** the coroutine identity [c] does not occur in the history *)
+Definition fresh (c : Z) (ops : list op) : bool :=
+  forallb (fun o => match o with Wait _ c' _ | WaitT _ c' _ => negb (c' =? c) | _ => true end) ops.
